@@ -14,15 +14,14 @@ import (
 )
 
 type dumper struct {
-	src          string
-	base         int
-	names        map[string]int
-	order        []ast.Node // pre-order of present nodes (own traversal, not ast.Walk)
-	kinds        []string
-	tokOK        bool
-	tokWhy       string
-	accFunc      map[*ast.FunctionLiteral]bool // getter/setter literals (no "function" keyword)
-	unterminated []*ast.SwitchStatement
+	src     string
+	base    int
+	names   map[string]int
+	order   []ast.Node // pre-order of present nodes (own traversal, not ast.Walk)
+	kinds   []string
+	tokOK   bool
+	tokWhy  string
+	accFunc map[*ast.FunctionLiteral]bool // getter/setter literals (no "function" keyword)
 }
 
 func isNilNode(n ast.Node) bool {
@@ -269,13 +268,7 @@ func (d *dumper) node(n ast.Node) string {
 		for _, c := range n.Body {
 			kids = append(kids, d.slotP(c))
 		}
-		if n.RightBrace == 0 {
-			// recorded finding: a switch cut off by the end of input is accepted without its '}';
-			// legitimate only if nothing but the switch's own clauses follows, i.e. no '}' after its last child
-			d.unterminated = append(d.unterminated, n)
-		} else {
-			d.at(n.RightBrace, "}", "SwitchStatement.RightBrace")
-		}
+		d.at(n.RightBrace, "}", "SwitchStatement.RightBrace")
 		return t(set("KSwitch"), zs(int(n.Switch), int(n.RightBrace), n.Default), kids)
 	case *ast.ThrowStatement:
 		d.at(n.Throw, "throw", "ThrowStatement")
@@ -323,14 +316,6 @@ func (d *dumper) spans() (coq string, txt string) {
 
 // FunctionLiteral.Source must be the text of the function's span
 func (d *dumper) checkSources() {
-	for _, sw := range d.unterminated {
-		// legitimate only if the switch runs to the end of input: no '}' after the end of its last piece
-		off := endOf(sw) - d.base
-		if off < 0 || off > len(d.src) || strings.Contains(stripComments(d.src[off:]), "}") {
-			d.tokOK = false
-			d.tokWhy = "SwitchStatement.RightBrace is 0 although the source closes the switch"
-		}
-	}
 	for _, n := range d.order {
 		fl, ok := n.(*ast.FunctionLiteral)
 		if !ok || d.accFunc[fl] {
@@ -346,75 +331,6 @@ func (d *dumper) checkSources() {
 			d.tokWhy = fmt.Sprintf("FunctionLiteral.Source %q is not the text of its span", fl.Source)
 		}
 	}
-}
-
-// the text with // and /* */ comments removed (exact where no string or regexp literal occurs)
-func stripComments(s string) string {
-	var b strings.Builder
-	for i := 0; i < len(s); i++ {
-		if s[i] == '/' && i+1 < len(s) && s[i+1] == '/' {
-			for i < len(s) && s[i] != '\n' && s[i] != '\r' && !strings.HasPrefix(s[i:], "\u2028") && !strings.HasPrefix(s[i:], "\u2029") {
-				i++
-			}
-			continue
-		}
-		if s[i] == '/' && i+1 < len(s) && s[i+1] == '*' {
-			j := strings.Index(s[i+2:], "*/")
-			if j < 0 {
-				break
-			}
-			i += j + 3
-			continue
-		}
-		b.WriteByte(s[i])
-	}
-	return b.String()
-}
-
-// end position of a node that may end with a switch cut off by the end of input (whose Idx1 is useless)
-func endOf(n ast.Node) (end int) {
-	if isNilNode(n) {
-		return 0
-	}
-	max := func(a, b int) int {
-		if a > b {
-			return a
-		}
-		return b
-	}
-	func() {
-		defer func() { _ = recover() }()
-		end = int(n.Idx1())
-	}()
-	switch n := n.(type) {
-	case *ast.SwitchStatement:
-		if n.RightBrace == 0 {
-			end = max(int(n.Switch)+6, endOf(n.Discriminant))
-			for _, c := range n.Body {
-				end = max(end, int(c.Case)+4)
-				if c.Test == nil {
-					end = max(end, int(c.Case)+7)
-				}
-				end = max(end, endOf(c.Test))
-				for _, s := range c.Consequent {
-					end = max(end, endOf(s))
-				}
-			}
-		}
-	case *ast.LabelledStatement:
-		end = max(end, endOf(n.Statement))
-	case *ast.IfStatement:
-		end = max(end, max(endOf(n.Consequent), endOf(n.Alternate)))
-	case *ast.ForStatement:
-		end = max(end, endOf(n.Body))
-	case *ast.ForInStatement:
-		end = max(end, endOf(n.Body))
-	case *ast.WhileStatement:
-		end = max(end, endOf(n.Body))
-	case *ast.WithStatement:
-		end = max(end, endOf(n.Body))
-	}
-	return end
 }
 
 // ---- ast.Walk observation ----
